@@ -5,6 +5,7 @@ import json, os, pickle, random, re, shutil, time
 from .common import *
 from .tygen import *
 from .tyrand import *
+from .mutants import *
 
 GEN_SHARDS = 8
 
@@ -84,6 +85,9 @@ def make_cases(seed, tier, ndefs=None, ntypes=None, nvals=None):
     ntypes = ntypes or (220 if tier == "quick" else 1500)
     nvals = nvals or 3
     U = build_universe(rng, ndefs)
+    kdefs, kpairs = known_pair_defs()
+    for d in kdefs:
+        U.add(d)
     types = []
     seen = set()
     depth = 3 if tier == "quick" else 5
@@ -101,6 +105,34 @@ def make_cases(seed, tier, ndefs=None, ntypes=None, nvals=None):
             continue
         seen.add(key)
         types.append(t)
+    # near-miss mutants (C04): mutated definitions live in their own modules under the same name
+    pairs = []          # (index of T, index of U, kind)
+    counter = [0]
+    base_defs = list(U.order)
+    chosen = base_defs if tier != "quick" else rng.sample(base_defs, min(14, len(base_defs)))
+    tindex = {}
+    for name in chosen:
+        d = U.defs[name]
+        insts = [t for t in types if t[0] == "adt" and t[1] == name and not ser_only(t)][:2]
+        if not insts:
+            continue
+        for m in mutants_of(d, counter):
+            U.add(m)
+            for t in insts:
+                tm = ("adt", m.key, t[2])
+                types.append(tm)
+                pairs.append((repr(t), repr(tm), m.mutation))
+    for (ta, tb, kind) in kpairs:
+        types.append(ta)
+        types.append(tb)
+        pairs.append((repr(ta), repr(tb), kind))
+    for t in list(types[:ntypes]):
+        if ser_only(t):
+            continue
+        for kind, tn in builtin_near_misses(U, t)[:2]:
+            if rng.random() < (0.5 if tier == "quick" else 1.0):
+                types.append(tn)
+                pairs.append((repr(t), repr(tn), kind))
     # regression corpus: the inputs of every defect found so far (fixed or known), always first
     corpus = corpus_cases()
     types = [t for (t, _) in corpus] + types
@@ -122,6 +154,19 @@ def make_cases(seed, tier, ndefs=None, ntypes=None, nvals=None):
                 break
         for j, v in enumerate(vals):
             cases.append(Case("c%dv%d" % (i, j), "t%d" % i, t, v))
+    # cross-read targets: bytes of a case of type T are read as every paired type U (both directions)
+    tid_of = {}
+    for c in cases:
+        tid_of.setdefault(repr(c.t), c.tid)
+    for c in cases:
+        c.cross = []
+    for (rt, ru, kind) in pairs:
+        if rt in tid_of and ru in tid_of:
+            for c in cases:
+                if repr(c.t) == rt:
+                    c.cross.append((tid_of[ru], kind))
+                elif repr(c.t) == ru:
+                    c.cross.append((tid_of[rt], kind))
     # twins: every case that holds a slice reference or an iterator wrapper gets the same case
     # with vectors in their place (C16 compares the two streams byte for byte)
     twins = []
@@ -129,6 +174,7 @@ def make_cases(seed, tier, ndefs=None, ntypes=None, nvals=None):
         if ser_only(c.t):
             tw = Case(c.cid + "w", c.tid + "w", vecty(U, c.t), normv(U, c.t, c.v))
             tw.twin_of = c.cid
+            tw.cross = []
             twins.append(tw)
     for tw in twins:
         types.append(tw.t)
@@ -172,6 +218,23 @@ def normv(U, t, v):
     return v
 
 
+def known_pair_defs():
+    """definitions and type pairs of the known findings of C04 (hash feed not injective)"""
+    u8 = ("prim", "u8")
+    t2 = ("tup", 2, u8)
+    a = Def("T", "struct", "zero", ["C"], [], [], [("x", ("tup", 2, t2)), ("y", t2), ("z", u8)])
+    a.module, a.key = "kf1", "kf1::T"
+    b = Def("T", "struct", "zero", ["C"], [], [], [("x", ("tup", 1, t2)), ("y", t2), ("z", ("tup", 3, u8))])
+    b.module, b.key = "kf2", "kf2::T"
+    e = Def("abcdefg", "enum", "deep", [], [], [], [("N", "unit", []), ("S", "unit", [])])
+    e.module, e.key = "kf3", "kf3::abcdefg"
+    s_ = Def("S", "struct", "deep", [], [], [("N", "usize", 0xff67666564636261)], [], style="unit")
+    s_.module, s_.key = "kf4", "kf4::S"
+    pairs = [(("adt", "kf1::T", ()), ("adt", "kf2::T", ()), "known:D11"),
+             (("adt", "kf3::abcdefg", ()), ("adt", "kf4::S", ()), "known:D12")]
+    return [a, b, e, s_], pairs
+
+
 def corpus_cases():
     u8, u32, u64 = ("prim", "u8"), ("prim", "u32"), ("prim", "u64")
     n = lambda x: ("n", x)
@@ -213,6 +276,9 @@ def write_gen_workspace(U, cases, gdir, shards=GEN_SHARDS):
     lock_src = os.path.join(HARNESS, "Cargo.lock")
     members = []
     defs_src = "\n".join(rust_def(U, U.defs[n]) for n in U.order)
+    type_of_tid = {}
+    for c in cases:
+        type_of_tid.setdefault(c.tid, c.t)
     parts = shards_of_cases(cases, shards)
     for k, part in enumerate(parts):
         cdir = os.path.join(gdir, "s%d" % k)
@@ -228,8 +294,12 @@ def write_gen_workspace(U, cases, gdir, shards=GEN_SHARDS):
             expr = rust_val(U, c.t, c.v, cx)
             st = rust_ty(U, c.t, "'_")
             dt = rust_ty(U, sertype(U, c.t), "'static")
-            body.append("fn case_%s(ops: &[String], arena: &mut Arena, out: &mut String) {\n    %s\n    let mk = || -> %s { %s };\n    run_case::<%s, %s>(\"%s\", &mk, ops, arena, out);\n}" % (
-                c.cid, "\n    ".join(cx.lets), st, expr, st, dt, c.cid))
+            crosses = ""
+            for (tidu, kind) in getattr(c, "cross", []):
+                tu = type_of_tid[tidu]
+                crosses += "\n    cross_case::<%s, %s>(\"%s\", \"%s\", &mk, ops, arena, out);" % (st, rust_ty(U, sertype(U, tu), "'static"), c.cid, tidu)
+            body.append("fn case_%s(ops: &[String], arena: &mut Arena, out: &mut String) {\n    %s\n    let mk = || -> %s { %s };\n    run_case::<%s, %s>(\"%s\", &mk, ops, arena, out);%s\n}" % (
+                c.cid, "\n    ".join(cx.lets), st, expr, st, dt, c.cid, crosses))
             arms.append('        "%s" => case_%s(ops, arena, out),' % (c.cid, c.cid))
         body.append("fn dispatch(cid: &str, ops: &[String], arena: &mut Arena, out: &mut String) {\n    match cid {\n%s\n        _ => {}\n    }\n}" % "\n".join(arms))
         body.append("""fn main() {
@@ -354,10 +424,26 @@ def run_model(U, cases, hdrs, ops_of, workdir, tag):
     by_tid = {}
     for c in cases:
         by_tid.setdefault(c.tid, []).append(c)
-    groups = shards(list(by_tid.keys()), NPROC)
+    # balance the shards by an estimate of the work (the extracted model is quadratic in the stream length)
+    cost = {tid: sum(60 + approx_len(U, c.t, c.v) ** 2 // 40 for c in cs) for tid, cs in by_tid.items()}
+    groups = [[] for _ in range(NPROC)]
+    load = [0] * NPROC
+    for tid in sorted(by_tid, key=lambda t: -cost[t]):
+        k = load.index(min(load))
+        groups[k].append(tid)
+        load[k] += cost[tid]
+    groups = [g for g in groups if g]
     cmds = []
     for k, tids in enumerate(groups):
         lines = []
+        declared = set()
+        for tid in tids:
+            # types read across (C04) must be declared in the same file
+            for c in by_tid[tid]:
+                for (tidu, _) in getattr(c, "cross", []):
+                    if tidu not in declared and tidu in by_tid:
+                        declared.add(tidu)
+                        lines.append("T %s %s" % (tidu, model_ty(U, by_tid[tidu][0].t)))
         for tid in tids:
             cs = by_tid[tid]
             lines.append("T %s %s" % (tid, model_ty(U, cs[0].t)))
@@ -461,6 +547,18 @@ def tag_counts(U, t, v):
     return out
 
 
+def approx_len(U, t, v):
+    """rough size of the serialized value (only used to choose the sampling step)"""
+    k = v[0]
+    if k == "n":
+        return 8
+    if k == "b":
+        return 8 + len(v[1])
+    if k == "s":
+        return 8 + sum(approx_len(U, t, x) for x in v[1])
+    return 8 + sum(approx_len(U, t, x) for x in v[2])
+
+
 def contains_siter(t):
     if t[0] == "siter":
         return True
@@ -549,7 +647,10 @@ def run_campaign(tier):
     okc, logc = coq_build()
     if not okc:
         c.errors.append("coq/driver build failed: " + logc[-1500:])
+    c.timing = {"generate": round(time.time() - t0, 1)}
+    t1 = time.time()
     ok, log = build_gen(gdir, tdir)
+    c.timing["cargo_build"] = round(time.time() - t1, 1)
     c.build_log = log[-4000:]
     if not ok:
         c.errors.append("generated harness does not compile:\n" + log[-3000:])
@@ -557,16 +658,22 @@ def run_campaign(tier):
         c.wall = time.time() - t0
         return c
     c.tagc = {x.cid: tag_counts(c.U, x.t, x.v) for x in c.cases}
+    # every cut / failure position for short streams; for longer ones in the quick tier the first
+    # and last 48 and every step-th (the thorough tier tries all of them)
+    c.steps = {x.cid: (1 if tier != "quick" else max(1, approx_len(c.U, x.t, x.v) // 96)) for x in c.cases}
     heavy_limit = 700 if tier == "quick" else 4000
 
     def iops(x):
         si = contains_siter(x.t)
-        ops = ["hdr", "ser", "full", "eps:0", "schema:noagain" if si else "schema", "flips", "place", "cuts", "rfault",
-               "wfault:noagain" if si else "wfault"]
+        st = c.steps[x.cid]
+        ops = ["hdr", "ser", "feed", "cross", "full", "eps:0", "schema:noagain" if si else "schema", "flips", "place",
+               "cuts:%d" % st, "rfault:%d" % st, "wfault:%s:%d" % ("noagain" if si else "again", st)]
         ops.append("tags:" + ",".join(str(n) for n in c.tagc[x.cid]))
         return ops
 
+    t1 = time.time()
     c.iobs, c.bases, errs = run_impl(parts, iops, gdir, tdir, "run")
+    c.timing["impl_run"] = round(time.time() - t1, 1)
     c.errors += errs
     c.hdrs = {}
     for x in c.cases:
@@ -579,11 +686,19 @@ def run_campaign(tier):
 
     def mops(x):
         b = "%x" % c.bases.get(x.cid, 0)
-        return ["tinfo", "ser", "full", "eps:" + b, "schema", "wfault", "flips:" + b, "place:" + b, "cuts:" + b,
+        cr = []
+        for (tidu, kind) in getattr(x, "cross", []):
+            hu = next((c.hdrs[y.cid] for y in c.cases if y.tid == tidu and y.cid in c.hdrs), None)
+            if hu:
+                cr.append("cross:%s:%s:%s:%s" % (b, tidu, hu[0], hu[1]))
+        return cr + ["tinfo", "ser", "feed", "full", "eps:" + b, "schema", "wfault:%d" % c.steps[x.cid], "flips:" + b, "place:" + b,
+                "cuts:%s:%d" % (b, c.steps[x.cid]),
                 "tags:%s:%s" % (b, ",".join(str(n) for n in c.tagc[x.cid]))]
 
     if okc:
+        t1 = time.time()
         c.mobs, merrs = run_model(c.U, c.cases, c.hdrs, mops, gdir, "run")
+        c.timing["model_run"] = round(time.time() - t1, 1)
         c.errors += merrs
     else:
         c.mobs = {}
@@ -596,8 +711,12 @@ def mkey(c, x, op):
     b = "%x" % c.bases.get(x.cid, 0)
     if op == "eps:0":
         return "eps:" + b
-    if op in ("flips", "place", "cuts", "tags"):
+    if op == "cuts":
+        return "cuts:" + b
+    if op in ("flips", "place", "tags"):
         return op + ":" + b
+    if op.startswith("cross:"):
+        return op
     return op
 
 
@@ -616,6 +735,9 @@ def agree(c, x, op):
         return m == re.sub(r" same=[yn]$", "", i)
     if op == "place":
         return m.strip() == re.sub(r" misaligned=\d+$", "", i).strip()
+    if op == "feed":
+        # the implementation adds the hash words; compare the two feeds
+        return m.strip() == " ".join(p for p in i.split(" ") if p.startswith(("t=", "a=")))
     if op == "wfault":
         # the implementation also reports real sinks and the re-serialization of the same object
         keep = lambda s: " ".join(p for p in s.split(" ") if p and not p.startswith(("file=", "devfull=", "again=", "sflush=", "smid=")))
